@@ -247,6 +247,9 @@ class Base(_BaseClass):
         """
         if token:
             value = token[1]
+            if not value:
+                # e.g. EOF
+                return value
             return value.replace('\\' + value[0], value[0])[1:-1]
         else:
             return None
